@@ -60,6 +60,39 @@ fn punch<'a>(t: &Term<'a>, depth: usize, rng: &mut Rng, prob: usize, holes: &mut
 }
 
 // a near-miss of `t`: one small structural change (for pairs that are almost, but not, equal)
+// A closed wrapper around `s` that reduces to `s` (identity applied, `if true`, `if false`, constant function
+// applied to `s` and a throw-away argument): `s` is a reduct of the result.
+fn wrap<'a>(s: &Term<'a>, rng: &mut Rng, junk: i64) -> Term<'a> {
+    match rng.below(4) {
+        0 => mk::app(mk::lam("w", false, mk::ty(), mk::var("w", 0)), s.clone()),
+        1 => mk::ite(mk::tt(), s.clone(), mk::lit(junk)),
+        2 => mk::ite(mk::ff(), mk::lit(junk), s.clone()),
+        _ => konst(s, junk),
+    }
+}
+fn konst<'a>(s: &Term<'a>, junk: i64) -> Term<'a> {
+    mk::app(mk::app(mk::lam("p", false, mk::ty(), mk::lam("q", false, mk::ty(), mk::var("p", 1))), s.clone()), mk::lit(junk))
+}
+// `t` with one subterm (not inside a definition group) replaced by a wrapper around it
+fn expand<'a>(t: &Term<'a>, rng: &mut Rng) -> Term<'a> {
+    use Variant::*;
+    let r = |x: &Rc<Term<'a>>, rng: &mut Rng| Rc::new(expand(x, rng));
+    if rng.chance(1, 3) { let j = rng.range(0, 9); return wrap(t, rng, j); }
+    let v = match &t.variant {
+        Lambda(x, i, a, b) => Lambda(x, *i, a.clone(), r(b, rng)),
+        Pi(x, i, a, b) => if rng.chance(1, 2) { Pi(x, *i, r(a, rng), b.clone()) } else { Pi(x, *i, a.clone(), r(b, rng)) },
+        Application(a, b) => Application(a.clone(), r(b, rng)),
+        Negation(a) => Negation(r(a, rng)),
+        Sum(a, b) => if rng.chance(1, 2) { Sum(r(a, rng), b.clone()) } else { Sum(a.clone(), r(b, rng)) },
+        Product(a, b) => if rng.chance(1, 2) { Product(r(a, rng), b.clone()) } else { Product(a.clone(), r(b, rng)) },
+        LessThan(a, b) => LessThan(a.clone(), r(b, rng)),
+        EqualTo(a, b) => EqualTo(r(a, rng), b.clone()),
+        If(c, a, b) => match rng.below(3) { 0 => If(r(c, rng), a.clone(), b.clone()), 1 => If(c.clone(), r(a, rng), b.clone()), _ => If(c.clone(), a.clone(), r(b, rng)) },
+        _ => { let j = rng.range(0, 9); return wrap(t, rng, j); }
+    };
+    Term { source_range: None, variant: v }
+}
+
 fn mutate<'a>(t: &Term<'a>, rng: &mut Rng) -> Term<'a> {
     use Variant::*;
     let r = |x: &Rc<Term<'a>>, rng: &mut Rng| Rc::new(mutate(x, rng));
@@ -148,7 +181,7 @@ fn gen_dctx<'a>(rng: &mut Rng, len: usize) -> DCtx<'a> {
 }
 
 pub fn unify_case<'a>(out: &mut Out, names: &mut Ser, a: &Term<'a>, b: &Term<'a>, dctx: &mut DCtx<'a>, label: &str,
-                      holes: &[(Cell<'a>, usize, usize)], expect_success: Option<bool>) {
+                      holes: &[(Cell<'a>, usize, usize)], expect_success: Option<bool>) -> Option<bool> {
     let mut ss = StoreSer::new();
     let (sa, sb) = (ss.term(names, a), ss.term(names, b));
     let dc = dctx_str(&mut ss, names, dctx);
@@ -173,7 +206,7 @@ pub fn unify_case<'a>(out: &mut Out, names: &mut Ser, a: &Term<'a>, b: &Term<'a>
     out.case(&op, &answer);
     out.stat(&format!("unify:{label}:{}", match &r { Ok(true) => "true", Ok(false) => "false", Err(_) => "panic" }));
     if !same && r.is_ok() { out.hit("C18", "unify-does-not-restore-context", &op, &answer); }
-    let Ok(res) = r else { return; };
+    let Ok(res) = r else { return None; };
     if let Some(e) = expect_success {
         if e != res && hc == 0 { out.hit("C12", if e { "unify-failed-on-instance" } else { "unify-succeeded-on-forbidden-configuration" }, &op, &format!("{label} holecopy-events={hc}")); }
     }
@@ -209,6 +242,7 @@ pub fn unify_case<'a>(out: &mut Out, names: &mut Ser, a: &Term<'a>, b: &Term<'a>
             other => out.hit("C12", "solutions-do-not-make-terms-equal", &op, &format!("second unification gave {other:?} holecopy-events={hc}")),
         }
     }
+    Some(res)
 }
 
 pub fn run(out: &mut Out, tier: &str, seed: u64) {
@@ -229,15 +263,36 @@ pub fn run(out: &mut Out, tier: &str, seed: u64) {
         let _ = &g2;
         let budget = 2 + rng.below(14);
         let t = safe(&g.make(&mut rng, budget, len));
-        match k % 5 {
-            4 => { let u = mutate(&t, &mut rng); unify_case(out, &mut names, &t, &u, &mut dctx, "near-miss", &[], None); let (mut ss2, _) = (StoreSer::new(), 0); let a2 = ss2.term(&mut names, &t); let b2 = ss2.term(&mut names, &u); let st2 = ss2.store(&mut names); out.case(&format!("syneq {st2} {a2} {b2}"), &format!("{}", syntactically_equal(&t, &u))); }
-            0 => { let b2 = 2 + rng.below(10); let u = safe(&g.make(&mut rng, b2, len)); unify_case(out, &mut names, &t, &u, &mut dctx, "unrelated", &[], None); }
-            1 => unify_case(out, &mut names, &t, &t, &mut dctx, "self", &[], Some(true)),
+        match k % 7 {
+            5 => {
+                // a hole-free term against a term it is a reduct of, in both orders
+                let e = expand(&t, &mut rng);
+                let (a, b) = if rng.chance(1, 2) { (e, t.clone()) } else { (t.clone(), e) };
+                if unify_case(out, &mut names, &a, &b, &mut dctx, "reduct", &[], None) == Some(false) {
+                    let mut ss = StoreSer::new();
+                    let (sa, sb) = (ss.term(&mut names, &a), ss.term(&mut names, &b));
+                    let dc = dctx_str(&mut ss, &mut names, &dctx);
+                    for q in ["C06", "C12"] { out.hit(q, "hole-free-term-not-equal-to-its-reduct", &format!("unify (S) {dc} {sa} {sb}"), "one side is the other with one subterm wrapped in a closed redex that reduces to it"); }
+                }
+            }
+            6 => {
+                // the same function applied to the same first argument and different throw-away arguments
+                let (a, b) = (konst(&t, 2), konst(&t, 3));
+                if unify_case(out, &mut names, &a, &b, &mut dctx, "same-normal-form", &[], None) == Some(false) {
+                    let mut ss = StoreSer::new();
+                    let (sa, sb) = (ss.term(&mut names, &a), ss.term(&mut names, &b));
+                    let dc = dctx_str(&mut ss, &mut names, &dctx);
+                    out.hit("C06", "hole-free-terms-with-the-same-normal-form-judged-different", &format!("unify (S) {dc} {sa} {sb}"), "both sides are `(p => q => p) t j` with different j");
+                }
+            }
+            4 => { let u = mutate(&t, &mut rng); let _ = unify_case(out, &mut names, &t, &u, &mut dctx, "near-miss", &[], None); let (mut ss2, _) = (StoreSer::new(), 0); let a2 = ss2.term(&mut names, &t); let b2 = ss2.term(&mut names, &u); let st2 = ss2.store(&mut names); out.case(&format!("syneq {st2} {a2} {b2}"), &format!("{}", syntactically_equal(&t, &u))); }
+            0 => { let b2 = 2 + rng.below(10); let u = safe(&g.make(&mut rng, b2, len)); let _ = unify_case(out, &mut names, &t, &u, &mut dctx, "unrelated", &[], None); }
+            1 => { let _ = unify_case(out, &mut names, &t, &t, &mut dctx, "self", &[], Some(true)); }
             _ => {
                 let mut holes = vec![];
                 let p = punch(&t, 0, &mut rng, 20, &mut holes);
                 let (a, b) = if rng.chance(1, 2) { (p, t.clone()) } else { (t.clone(), p) };
-                unify_case(out, &mut names, &a, &b, &mut dctx, "punched", &holes, None);
+                let _ = unify_case(out, &mut names, &a, &b, &mut dctx, "punched", &holes, None);
             }
         }
         // whnf / syneq ops on the same material
@@ -276,8 +331,10 @@ pub fn run(out: &mut Out, tier: &str, seed: u64) {
             _ => (mk::lam("x", false, mk::int(), h(0)), mk::lam("x", false, mk::int(), mk::var("x", 0)), true),
         };
         if k % 5 == 1 || k % 5 == 3 { dctx.push(None); }
+        let what = ["X = X -> int", "X = f X", "(x => X[1]) = (x => x)", "Y := X, X = f Y", "(x => X) = (x => x)"][k % 5];
+        if !out.begin(&format!("unify: occurs-check / scope-escape configuration `{what}` under {} context entries", dctx.len())) { continue; }
         let holes = vec![(cell.clone(), if k % 5 == 2 || k % 5 == 4 { 1 } else { 0 }, if k % 5 == 2 { 1 } else { 0 })];
-        unify_case(out, &mut names, &a, &b, &mut dctx, "config", &holes, Some(exp));
+        let _ = unify_case(out, &mut names, &a, &b, &mut dctx, "config", &holes, Some(exp));
     }
     // 3. G-prog programs as instances: holes punched into parser-produced terms
     let np = if tier == "thorough" { 6000 } else { 600 };
@@ -292,7 +349,7 @@ pub fn run(out: &mut Out, tier: &str, seed: u64) {
             let mut holes = vec![];
             let pat = punch(&t, 0, &mut sub, 8, &mut holes);
             let mut dctx: DCtx = vec![];
-            unify_case(out, &mut names, &pat, &t, &mut dctx, "program", &holes, None);
+            let _ = unify_case(out, &mut names, &pat, &t, &mut dctx, "program", &holes, None);
         }
     }
 }
